@@ -94,15 +94,15 @@ var _ p2p.Peer = (*c17Peer)(nil)
 
 func newC17Peer(id string) *c17Peer { return &c17Peer{id: p2p.ID(id), kv: map[string]interface{}{}} }
 
-func (p *c17Peer) Start() error        { return nil }
-func (p *c17Peer) OnStart() error      { return nil }
-func (p *c17Peer) Stop() error         { atomic.AddInt32(&p.stopped, 1); return nil }
-func (p *c17Peer) OnStop()             {}
-func (p *c17Peer) Reset() error        { return nil }
-func (p *c17Peer) OnReset() error      { return nil }
+func (p *c17Peer) Start() error          { return nil }
+func (p *c17Peer) OnStart() error        { return nil }
+func (p *c17Peer) Stop() error           { atomic.AddInt32(&p.stopped, 1); return nil }
+func (p *c17Peer) OnStop()               {}
+func (p *c17Peer) Reset() error          { return nil }
+func (p *c17Peer) OnReset() error        { return nil }
 func (p *c17Peer) Quit() <-chan struct{} { return make(chan struct{}) }
-func (p *c17Peer) String() string      { return "c17Peer{" + string(p.id) + "}" }
-func (p *c17Peer) SetLogger(log.Logger) {}
+func (p *c17Peer) String() string        { return "c17Peer{" + string(p.id) + "}" }
+func (p *c17Peer) SetLogger(log.Logger)  {}
 func (p *c17Peer) IsRunning() bool {
 	if atomic.LoadInt32(&p.stopped) > 0 {
 		return false
@@ -112,14 +112,14 @@ func (p *c17Peer) IsRunning() bool {
 	}
 	return true
 }
-func (p *c17Peer) FlushStop()             {}
-func (p *c17Peer) ID() p2p.ID             { return p.id }
-func (p *c17Peer) RemoteIP() net.IP       { return net.IPv4(10, 0, 0, 17) }
-func (p *c17Peer) RemoteAddr() net.Addr   { return &net.TCPAddr{IP: p.RemoteIP(), Port: 26656} }
-func (p *c17Peer) IsOutbound() bool       { return false }
-func (p *c17Peer) IsPersistent() bool     { return false }
-func (p *c17Peer) CloseConn() error       { return nil }
-func (p *c17Peer) NodeInfo() p2p.NodeInfo { return p2p.DefaultNodeInfo{} }
+func (p *c17Peer) FlushStop()                      {}
+func (p *c17Peer) ID() p2p.ID                      { return p.id }
+func (p *c17Peer) RemoteIP() net.IP                { return net.IPv4(10, 0, 0, 17) }
+func (p *c17Peer) RemoteAddr() net.Addr            { return &net.TCPAddr{IP: p.RemoteIP(), Port: 26656} }
+func (p *c17Peer) IsOutbound() bool                { return false }
+func (p *c17Peer) IsPersistent() bool              { return false }
+func (p *c17Peer) CloseConn() error                { return nil }
+func (p *c17Peer) NodeInfo() p2p.NodeInfo          { return p2p.DefaultNodeInfo{} }
 func (p *c17Peer) Status() tmconn.ConnectionStatus { return tmconn.ConnectionStatus{} }
 func (p *c17Peer) SocketAddr() *p2p.NetAddress {
 	return p2p.NewNetAddressIPPort(p.RemoteIP(), 26656)
@@ -147,33 +147,37 @@ var _ service.Service = (*c17Peer)(nil)
 
 type c17Ticker struct{ c chan timeoutInfo }
 
-func (t *c17Ticker) Start() error                 { return nil }
-func (t *c17Ticker) Stop() error                  { return nil }
-func (t *c17Ticker) Chan() <-chan timeoutInfo     { return t.c }
-func (t *c17Ticker) ScheduleTimeout(timeoutInfo)  {}
-func (t *c17Ticker) SetLogger(log.Logger)         {}
+func (t *c17Ticker) Start() error                { return nil }
+func (t *c17Ticker) Stop() error                 { return nil }
+func (t *c17Ticker) Chan() <-chan timeoutInfo    { return t.c }
+func (t *c17Ticker) ScheduleTimeout(timeoutInfo) {}
+func (t *c17Ticker) SetLogger(log.Logger)        {}
 
 // ---------------------------------------------------------------------------------------------
 // environment: keys, genesis, config (one per process)
 
 type c17Env struct {
 	config  *cfg.Config
-	keys    []crypto.PrivKey         // in validator-set order
-	pvs     []types.PrivValidator    // same order
+	keys    []crypto.PrivKey      // in validator-set order
+	pvs     []types.PrivValidator // same order
 	genesis sm.State
 	nodeIdx int // the node's validator index: NOT the proposer of (1,0)
 	byzIdx  int // the hostile peer's validator key: the proposer of (1,0)
 	garbage []byte
+	nvals   int
 }
 
-func newC17Env() *c17Env {
-	e := &c17Env{}
+func newC17Env() *c17Env { return newC17EnvN(4) }
+
+// newC17EnvN: nvals validators of equal power (65 makes every validator bit array span two words).
+func newC17EnvN(nvals int) *c17Env {
+	e := &c17Env{nvals: nvals}
 	e.config = cfg.ResetTestRoot("c17_consensus")
 	e.config.Consensus.PeerGossipSleepDuration = time.Nanosecond
 	e.config.Consensus.PeerQueryMaj23SleepDuration = time.Nanosecond
 	var gvals []types.GenesisValidator
 	var keys []crypto.PrivKey
-	for i := 0; i < 4; i++ {
+	for i := 0; i < nvals; i++ {
 		k := ed25519.GenPrivKeyFromSecret([]byte(fmt.Sprintf("c17-validator-%d", i)))
 		keys = append(keys, k)
 		gvals = append(gvals, types.GenesisValidator{PubKey: k.PubKey(), Power: 10})
@@ -218,7 +222,7 @@ type c17Node struct {
 	sw    *p2p.Switch
 	bus   *types.EventBus
 	caps  map[byte]int
-	block *types.Block   // the legit proposal block of the current height (states with a proposal)
+	block *types.Block // the legit proposal block of the current height (states with a proposal)
 	parts *types.PartSet
 	prop  *types.Proposal
 }
@@ -296,7 +300,7 @@ func (e *c17Env) newNode(state int) *c17Node {
 			n.feedProposal("honest")
 			n.drainInternal()
 			bid := types.BlockID{Hash: n.block.Hash(), PartSetHeader: n.parts.Header()}
-			for i := 0; i < 4 && cs.Step < cstypes.RoundStepPrecommit; i++ {
+			for i := 0; i < e.nvals && cs.Step < cstypes.RoundStepPrecommit; i++ {
 				if i != e.nodeIdx {
 					n.handle(msgInfo{&VoteMessage{n.vote(i, 1, 0, tmproto.PrevoteType, bid)}, "honest"})
 				}
@@ -308,7 +312,7 @@ func (e *c17Env) newNode(state int) *c17Node {
 		case c17NodeCommitWait1:
 			n.makeProposal(0, e.byzIdx)
 			bid := types.BlockID{Hash: n.block.Hash(), PartSetHeader: n.parts.Header()}
-			for i := 0; i < 4; i++ {
+			for i := 0; i < e.nvals; i++ {
 				if i != e.nodeIdx {
 					n.handle(msgInfo{&VoteMessage{n.vote(i, 1, 0, tmproto.PrecommitType, bid)}, "honest"})
 				}
@@ -318,7 +322,7 @@ func (e *c17Env) newNode(state int) *c17Node {
 				panic(fmt.Sprintf("c17: commit-wait state not reached: %d/%d/%v", cs.Height, cs.Round, cs.Step))
 			}
 		case c17NodeRound1:
-			for i := 0; i < 4; i++ {
+			for i := 0; i < e.nvals; i++ {
 				if i != e.nodeIdx {
 					n.handle(msgInfo{&VoteMessage{n.vote(i, 1, 1, tmproto.PrevoteType, types.BlockID{})}, "honest"})
 				}
@@ -341,7 +345,7 @@ func (e *c17Env) newNode(state int) *c17Node {
 	if state >= c17NodeNewHeight2 {
 		bid := types.BlockID{Hash: n.block.Hash(), PartSetHeader: n.parts.Header()}
 		for _, typ := range []tmproto.SignedMsgType{tmproto.PrevoteType, tmproto.PrecommitType} {
-			for i := 0; i < 4 && cs.Height == 1; i++ {
+			for i := 0; i < e.nvals && cs.Height == 1; i++ {
 				// stop as soon as the height is committed: with SkipTimeoutCommit (test config) the 4th
 				// precommit would take the node straight into round 0 of height 2
 				if i != e.nodeIdx {
@@ -457,7 +461,7 @@ func (n *c17Node) commitViaCatchup() (panicked string, ok bool) {
 		return "", false
 	}
 	bid := types.BlockID{Hash: block.Hash(), PartSetHeader: parts.Header()}
-	for i := 0; i < 4; i++ {
+	for i := 0; i < n.e.nvals; i++ {
 		if i != n.e.nodeIdx {
 			if p := n.handle(msgInfo{&VoteMessage{n.vote(i, h, 2, tmproto.PrecommitType, bid)}, "honest"}); p != "" {
 				return p, false
@@ -552,17 +556,18 @@ type c17CMsg struct {
 	AddrLen  int   `json:"addr_len,omitempty"`
 	PType    int32 `json:"ptype,omitempty"` // proposal type field
 	// block part
-	PartLen    int   `json:"part_len,omitempty"`
-	ProofTotal int64 `json:"proof_total,omitempty"`
-	ProofIndex int64 `json:"proof_index,omitempty"`
-	Aunts      int   `json:"aunts,omitempty"`
+	PartLen    int    `json:"part_len,omitempty"`
+	ProofTotal int64  `json:"proof_total,omitempty"`
+	ProofIndex int64  `json:"proof_index,omitempty"`
+	Aunts      int    `json:"aunts,omitempty"`
 	Field      string `json:"field"` // which field is being varied (for the outcome histogram / notes)
 }
 
 type c17CCase struct {
-	Node int     `json:"node"`
-	Peer int     `json:"peer"`
-	Msg  c17CMsg `json:"msg"`
+	Node  int     `json:"node"`
+	Peer  int     `json:"peer"`
+	Msg   c17CMsg `json:"msg"`
+	NVals int     `json:"validators,omitempty"` // 0 = 4
 }
 
 func c17BA(bitsN int64, elems int) tmbits.BitArray {
@@ -791,13 +796,13 @@ func (n *c17Node) retained(ps *PeerState) (field string, bytesN int64) {
 // peer-state prefixes (legit-shaped messages sent by the peer before the hostile one)
 
 const (
-	c17PeerFresh = iota
-	c17PeerNRS            // NewRoundStep(h, 0, Propose)
-	c17PeerProposal       // + Proposal(h, 0) (the node's own proposal header when it has one)
-	c17PeerProposalPOL    // NewRoundStep(h, 1, Propose) + Proposal(h, 1, POLRound 0)
-	c17PeerCommitted      // NRS + NewValidBlock(IsCommit) + NewRoundStep(h, 0, Commit)
-	c17PeerLagging        // NewRoundStep(h-1, 0, Propose)  (only when h-1 >= 1)
-	c17PeerAhead          // NewRoundStep(h+1, 0, NewHeight)
+	c17PeerFresh       = iota
+	c17PeerNRS         // NewRoundStep(h, 0, Propose)
+	c17PeerProposal    // + Proposal(h, 0) (the node's own proposal header when it has one)
+	c17PeerProposalPOL // NewRoundStep(h, 1, Propose) + Proposal(h, 1, POLRound 0)
+	c17PeerCommitted   // NRS + NewValidBlock(IsCommit) + NewRoundStep(h, 0, Commit)
+	c17PeerLagging     // NewRoundStep(h-1, 0, Propose)  (only when h-1 >= 1)
+	c17PeerAhead       // NewRoundStep(h+1, 0, NewHeight)
 	c17NPeerStates
 )
 
@@ -1160,7 +1165,7 @@ func c17Messages(h, ph int64, nvals int64, partsTotal uint32) []c17CMsg {
 	}
 	// ProposalPOL
 	{
-		base := c17CMsg{Type: "ProposalPOL", Ch: DataChannel, H: ph, PolRound: 0, Bits: nvals, Elems: 1}
+		base := c17CMsg{Type: "ProposalPOL", Ch: DataChannel, H: ph, PolRound: 0, Bits: nvals, Elems: int((nvals + 63) / 64)}
 		for _, x := range c17Heights(h, ph) {
 			m := base
 			m.H = x
@@ -1337,7 +1342,7 @@ func c17Messages(h, ph int64, nvals int64, partsTotal uint32) []c17CMsg {
 	}
 	// VoteSetBits
 	{
-		base := c17CMsg{Type: "VoteSetBits", Ch: VoteSetBitsChannel, H: ph, R: 0, VType: 1, Total: 1, HashLen: 32, Bits: nvals, Elems: 1}
+		base := c17CMsg{Type: "VoteSetBits", Ch: VoteSetBitsChannel, H: ph, R: 0, VType: 1, Total: 1, HashLen: 32, Bits: nvals, Elems: int((nvals + 63) / 64)}
 		for _, x := range c17Heights(h, ph) {
 			m := base
 			m.H = x
@@ -1400,14 +1405,27 @@ func TestVerifC17Consensus(t *testing.T) {
 		"(each differs from the well-formed base in at least one field, or is the base in a distinct node/peer state)"
 	r.Assume("the hostile peer may hold one validator key (< 1/3 of the power): the proposer of height 1 round 0")
 	r.Assume("gossip goroutines are executed as k=3 loop iterations of the real routine bodies in the harness goroutine, not as free-running goroutines")
-	e := newC17Env()
-	defer e.cleanup()
+	envs := map[int]*c17Env{}
+	envFor := func(nv int) *c17Env {
+		if nv == 0 {
+			nv = 4
+		}
+		if envs[nv] == nil {
+			envs[nv] = newC17EnvN(nv)
+		}
+		return envs[nv]
+	}
+	defer func() {
+		for _, x := range envs {
+			x.cleanup()
+		}
+	}()
 	var rc c17CCase
 	if rep, skip := r.ReplayCase(&rc); skip {
 		return
 	} else if rep {
 		r.Eval()
-		res := e.run(rc)
+		res := envFor(rc.NVals).run(rc)
 		if res.key != "" {
 			r.Violation(res.key, res.what, rc)
 		}
@@ -1416,82 +1434,93 @@ func TestVerifC17Consensus(t *testing.T) {
 	k := 0
 	stop := false
 	perType := map[string]int64{}
-	for node := 0; node < vr.Pick(c17NNodeStatesQuick, c17NNodeStatesAll) && !stop; node++ {
-		for peerSt := 0; peerSt < c17NPeerStates && !stop; peerSt++ {
-			// the heights the alphabet is relative to
-			probe := e.newNode(node)
-			h := probe.cs.Height
-			pt := uint32(0)
-			if probe.cs.ProposalBlockParts != nil {
-				pt = probe.cs.ProposalBlockParts.Total()
-			}
-			_, ok := probe.prefix(peerSt)
-			probe.stop()
-			if !ok {
-				continue
-			}
-			ph := h
-			switch peerSt {
-			case c17PeerFresh:
-				ph = 0
-			case c17PeerLagging:
-				ph = h - 1
-			case c17PeerAhead:
-				ph = h + 1
-			}
-			msgs := c17Messages(h, ph, 4, pt)
-			for _, m := range msgs {
-				if m.Type == "Vote" && m.Index == -100 {
-					m.Index = int64(e.byzIdx)
+	// 4 validators: the whole alphabet; 65 validators (every validator bit array spans two words): the messages that carry or
+	// address bit arrays and vote indexes
+	for _, nv := range []int{4, 65} {
+		e := envFor(nv)
+		for node := 0; node < vr.Pick(c17NNodeStatesQuick, c17NNodeStatesAll) && !stop; node++ {
+			for peerSt := 0; peerSt < c17NPeerStates && !stop; peerSt++ {
+				// the heights the alphabet is relative to
+				probe := e.newNode(node)
+				h := probe.cs.Height
+				pt := uint32(0)
+				if probe.cs.ProposalBlockParts != nil {
+					pt = probe.cs.ProposalBlockParts.Total()
 				}
-				k++
-				if !r.Mine(k) {
+				_, ok := probe.prefix(peerSt)
+				probe.stop()
+				if !ok {
 					continue
 				}
-				if k%16 == 0 && r.Deadline("C17 consensus enumeration") {
-					stop = true
-					break
+				ph := h
+				switch peerSt {
+				case c17PeerFresh:
+					ph = 0
+				case c17PeerLagging:
+					ph = h - 1
+				case c17PeerAhead:
+					ph = h + 1
 				}
-				c := c17CCase{Node: node, Peer: peerSt, Msg: m}
-				// safety valve: a validly signed proposal makes the state machine allocate 8*Total bytes
-				if m.Type == "Proposal" && m.Sig == 0 && m.Total > 1<<22 {
-					r.Outcome("skipped:unsafe-to-execute(validly-signed-proposal-total>2^22)")
-					continue
-				}
-				r.Eval()
-				r.NTCount(1)
-				perType[m.Type]++
-				res := e.run(c)
-				for _, d := range res.diags {
-					r.Add(d, 1)
-				}
-				if res.key != "" {
-					first := fmt.Errorf("%s", res.key)
-					if !vr.Confirm(3, first, func() error {
-						r2 := e.run(c)
-						if r2.key == "" {
-							return nil
-						}
-						return fmt.Errorf("%s", r2.key)
-					}) {
-						r.Note(fmt.Sprintf("unstable failure %s on %+v", res.key, c))
-						r.Cap("a failing case did not fail identically on 3 re-runs; see notes")
-						r.Outcome("unstable")
+				msgs := c17Messages(h, ph, int64(e.nvals), pt)
+				for _, m := range msgs {
+					if nv != 4 && m.Type != "ProposalPOL" && m.Type != "NewValidBlock" && m.Type != "VoteSetBits" && m.Type != "HasVote" && m.Type != "VoteSetMaj23" {
 						continue
 					}
-					r.Violation(res.key, res.what, c)
-					r.Outcome("violation:" + m.Type)
-					continue
-				}
-				r.Outcome(m.Type + ":" + res.outcome)
-				if k%1777 == 1 {
-					r.Sample(c)
+					if m.Type == "Vote" && m.Index == -100 {
+						m.Index = int64(e.byzIdx)
+					}
+					k++
+					if !r.Mine(k) {
+						continue
+					}
+					if k%16 == 0 && r.Deadline("C17 consensus enumeration") {
+						stop = true
+						break
+					}
+					c := c17CCase{Node: node, Peer: peerSt, Msg: m}
+					if nv != 4 {
+						c.NVals = nv
+					}
+					// safety valve: a validly signed proposal makes the state machine allocate 8*Total bytes
+					if m.Type == "Proposal" && m.Sig == 0 && m.Total > 1<<22 {
+						r.Outcome("skipped:unsafe-to-execute(validly-signed-proposal-total>2^22)")
+						continue
+					}
+					r.Eval()
+					r.NTCount(1)
+					perType[m.Type]++
+					res := e.run(c)
+					for _, d := range res.diags {
+						r.Add(d, 1)
+					}
+					if res.key != "" {
+						first := fmt.Errorf("%s", res.key)
+						if !vr.Confirm(3, first, func() error {
+							r2 := e.run(c)
+							if r2.key == "" {
+								return nil
+							}
+							return fmt.Errorf("%s", r2.key)
+						}) {
+							r.Note(fmt.Sprintf("unstable failure %s on %+v", res.key, c))
+							r.Cap("a failing case did not fail identically on 3 re-runs; see notes")
+							r.Outcome("unstable")
+							continue
+						}
+						r.Violation(res.key, res.what, c)
+						r.Outcome("violation:" + m.Type)
+						continue
+					}
+					r.Outcome(m.Type + ":" + res.outcome)
+					if k%1777 == 1 {
+						r.Sample(c)
+					}
 				}
 			}
 		}
 	}
 	if !stop {
-		r.Bound = fmt.Sprintf("%d node states x %d peer states x all one-field variations of 9 message types", vr.Pick(c17NNodeStatesQuick, c17NNodeStatesAll), c17NPeerStates)
+		r.Bound = fmt.Sprintf("%d node states x %d peer states x all one-field variations of 9 message types (4 validators) and of the 5 bit-array / index message types (65 validators)", vr.Pick(c17NNodeStatesQuick, c17NNodeStatesAll), c17NPeerStates)
 	}
 	for t, n := range perType {
 		r.Set("cases_"+t, n)
